@@ -32,7 +32,7 @@ def rank_scenarios(tier, seed):
             esis = rnd.sample(range(K), nsrc) + rnd.sample(range(K, K + 4 * K) if tries % 3 else range(K, 1 << 24), K - nsrc)
             isis = [e if e < K else e + p.Kp - K for e in esis] + list(range(K, p.Kp))
             kv = cert.kernel_vector(cert.gf_matrix(p, isis, True), p.L)
-            extra = rnd.sample(range(K + 5 * K, K + 6 * K), 2)
+            extra = rnd.sample(range(K + 5 * K, K + 6 * K + 8), 2)
             thr = decscen.DENSE if tries % 2 else decscen.SPARSE
             if kv is not None and deficient < n_def:
                 deficient += 1
@@ -46,7 +46,7 @@ def rank_scenarios(tier, seed):
             tries += 1
             cnt = K + p.H + rnd.randrange(0, 2)
             nsrc = rnd.randrange(0, K)
-            esis = rnd.sample(range(K), nsrc) + rnd.sample(range(K, K + 6 * K), cnt - nsrc)
+            esis = rnd.sample(range(K), nsrc) + rnd.sample(range(K, K + 6 * K + 64), cnt - nsrc)
             isis = [e if e < K else e + p.Kp - K for e in esis] + list(range(K, p.Kp))
             if cert.kernel_vector(cert.gf_matrix(p, isis, False), p.L) is not None and cert.kernel_vector(cert.gf_matrix(p, isis, True), p.L) is None:
                 fallback += 1
